@@ -509,8 +509,8 @@ class Check:
         predicate(case, impl_out) -> None or a string saying how the property fails."""
         assert len(cases) == len(impl)
         self.evaluations += len(cases)
-        reported = 0
-        fam = family or "cases"
+        reported = {True: 0, False: 0}     # property failures and mere disagreements are capped separately,
+        fam = family or "cases"              # so that a failing input is never crowded out by harmless differences
         for i, c in enumerate(cases):
             io = impl[i]
             mo = model[i] if model is not None else None
@@ -533,8 +533,8 @@ class Check:
             if f is not None:
                 self.known_hits[f["what"]] = self.known_hits.get(f["what"], 0) + 1
                 continue
-            if reported < max_report:
-                reported += 1
+            if reported[why is None] < max_report:
+                reported[why is None] += 1
                 path = self.write_replay({
                     "kind": "case", "property": self.pid, "family": fam, "case": c.line, "ckind": c.kind, "mtoks": " ".join(c.toks),
                     "impl": io, "model": mo,
